@@ -271,3 +271,19 @@ func (r *Runner) RunAll(after func(*CallRecord)) {
 		}
 	}
 }
+
+// Reread reads a marshalled session back and marshals it again (source state is restored afterwards).
+func (r *Runner) Reread(data []byte) (again []byte, err error) {
+	defer func() {
+		if rec := recover(); rec != nil {
+			err = fmt.Errorf("panic in ReadSession: %v", rec)
+		}
+	}()
+	st := r.Src.Snapshot()
+	defer r.Src.Restore(st)
+	s, err := r.Eng.ReadSession(r.SA, data, func(assets.Reference, error) {})
+	if err != nil {
+		return nil, err
+	}
+	return marshal(s), nil
+}
